@@ -91,7 +91,7 @@ func (h *HyperLogLog) Equals(g *HyperLogLog) bool {
 	if h.numRegisters != g.numRegisters {
 		return false
 	}
-	for i := 0; i < int(h.numRegisters)-1; i++ {
+	for i := 0; i < int(h.numRegisters); i++ {
 		if h.registers[i] != g.registers[i] {
 			return false
 		}
